@@ -204,6 +204,14 @@ def run(ctx):
     import tr_gates
     tr_errors = []
     table = generate(ctx, tr_errors)
+    _orig_report, _seen = ctx.report, {}
+
+    def _capped(key, kind, name, detail, found_input=True):
+        cat = key.split(":", 1)[0]
+        _seen[cat] = _seen.get(cat, 0) + 1
+        if _seen[cat] <= 3 or ctx.is_known(key) is not None:      # at most 3 replays per category of failure
+            _orig_report(key, kind, name, detail, found_input)
+    ctx.report = _capped
     info = ctx.coq_props()
     show = ctx.coq_make(["C20/Show.vo"])
     r = vlib.rng(ctx.seed, "C20")
